@@ -21,7 +21,7 @@ import families as fam
 
 PROP = "C20"
 IMPORTS = "C20.Model"
-SHARD = 8
+SHARD = 3
 RULE = ("CraftTorch on N in 1..3 structured dyadic images (C in 1..3, H != W in 8..16), extractor = strided conv with "
         "non-negative integer weights + ReLU giving 4-D activations (H' != W') or 2-D (flatten / global pooling), "
         "2..4 concepts, patch sizes 2..min(H,W) (strides floor(0.8 p) with and without truncation), batch sizes biased "
@@ -36,11 +36,11 @@ ASSUMPTIONS = ["scikit-learn's NMF.transform is observed as a table row -> coeff
                "activations the head actually receives",
                "extractor and head are row-wise (no cross-sample coupling)",
                "float32 products u*mask and (u*mask) @ W: relative tolerance 1e-5 on the head inputs; importances: absolute "
-               "tolerance 2e-4 * (1 + value), cases whose variance of f(A) is below 1e-3 * mean(f(A)^2) are skipped and counted"]
+               "tolerance 5e-5 * (1 + value) (worst seen 3e-7); inputs whose variance of f(A) is below 1e-2 * mean(f(A)^2) (0/0 = NaN in the code when the variance vanishes: the property assumes Var > 0) make the importance checks of the case skipped, and counted"]
 
 TOL_A = 1e-5
-TOL_IMP = 2e-4
-GUARD = 1e-3
+TOL_IMP = 5e-5
+GUARD = 1e-2
 
 PRELUDE = """
 Definition qlist3_eqb := list_eqb qlist2_eqb.
@@ -57,6 +57,37 @@ Definition close_rows2 (tol : Qc) (a b : list (list (list Qc))) : bool :=
 Definition close_imp (tol : Qc) (a b : list Qc) : bool :=
   Nat.eqb (length a) (length b) && forallb (fun p => qclose tol (1 + Qcabs (fst p)) (fst p) (snd p)) (combine a b).
 Close Scope Qc_scope.
+(* the comparisons of one case; data are arguments (no let-bound literals: elaboration of those is very slow) *)
+Definition c20_common (C H W p Nfit : nat) (imgs crops : list (list Qc)) (nU : nat) : list bool :=
+  [qlist2_eqb (extract_patches C H W p imgs) crops; Nat.eqb (crop_count Nfit H W p) nU].
+Definition c20_imp_checks (cmp : bool) (tol : Qc) (imp IMP IMPAFF : list Qc) : list bool :=
+  if cmp then [close_imp tol imp IMP; close_imp tol IMP IMPAFF] else [true; true].
+Definition c20_checks_2d (C H W p Nfit : nat) (imgs crops : list (list Qc)) (nU : nat)
+  (raws : list (list Qc)) (tab : list (list Qc * list Qc)) (ks : list qclass) (Wb AB : list (list Qc))
+  (bs Fb cls n R nq : nat) (TU : list (list Qc)) (tolA : Qc) (HI : list (list (list Qc)))
+  (cmp : bool) (tol : Qc) (IMP IMPAFF : list Qc) : list bool * list Qc :=
+  let G := tabG raws in let nmf := map (row_table tab) in let Hd := map (fquad_out ks) in
+  let masks := replicated_sampler R AB in
+  let tu := transform_2d G nmf bs (seq 0 nq) in
+  let imp := importance_2d Hd bs Wb Fb cls n R masks tu in
+  (c20_common C H W p Nfit imgs crops nU
+   ++ [qlist2_eqb tu TU; close_rows2 tolA (map (perturbed_2d Wb Fb masks) tu) HI]
+   ++ c20_imp_checks cmp tol imp IMP IMPAFF, imp).
+Definition c20_checks_4d (C H W p Nfit : nat) (imgs crops : list (list Qc)) (nU : nat)
+  (raws : list (list Qc)) (tab : list (list Qc * list Qc)) (ks : list qclass) (Wb AB : list (list Qc))
+  (bs Fb cls n R nq Fa Ha Wa : nat) (TU : list (list (list (list Qc)))) (tolA : Qc) (HI : list (list (list Qc)))
+  (cmp : bool) (tol : Qc) (IMP IMPAFF : list Qc) : list bool * list Qc :=
+  let G := tabG raws in let nmf := map (row_table tab) in let Hd := map (fquad_out ks) in
+  let masks := replicated_sampler R AB in
+  let tu := transform_4d G nmf bs Fa Ha Wa (seq 0 nq) in
+  let imp := importance_4d Hd bs Wb Fb cls n R masks tu in
+  (c20_common C H W p Nfit imgs crops nU
+   ++ [qlist4_eqb tu TU;
+       close_rows2 tolA (map (head_inputs_4d Wb Fb masks (length (hd [] tu)) (length (hd [] (hd [] tu)))) tu) HI]
+   ++ c20_imp_checks cmp tol imp IMP IMPAFF, imp).
+Definition c20_ok (r : list bool * list Qc) (flags : list bool) : bool :=
+  forallb (fun b : bool => b) (fst r) && forallb (fun b : bool => b) flags.
+Definition c20_dump (r : list bool * list Qc) : list bool * list (Z * positive) := (fst r, map qdump (snd r)).
 """
 
 
@@ -273,12 +304,6 @@ def run_impl(case):
     rec_out = np.concatenate(h.outputs, 0)
     M = n * (R + 2)
     flags["head_calls"] = rec_in.shape[0] == M * len(xq_list)
-    finite = bool(np.all(np.isfinite(imp)))
-    flags["importance_finite"] = finite
-    flags["importance_nonneg"] = finite and bool(np.all(imp >= 0))
-    flags["importance_shape"] = list(imp.shape) == [R]
-    if case["zero_row"] is not None:
-        flags["zero_row_zero_importance"] = finite and float(imp[case["zero_row"]]) == 0.0
     # conditioning of the variance of f(A), per input (guard; computed from the recorded logits)
     cond = []
     if flags["head_calls"]:
@@ -286,6 +311,14 @@ def run_impl(case):
         for row in y:
             ms = float(np.mean(row * row))
             cond.append(float(np.var(row, ddof=1) / ms) if ms > 0 else 0.0)
+    well_posed = bool(cond) and min(cond) >= GUARD          # Var(f(A)) > 0 for every input, with a margin
+    finite = bool(np.all(np.isfinite(imp)))
+    flags["importance_shape"] = list(imp.shape) == [R]
+    if well_posed:
+        flags["importance_finite"] = finite
+        flags["importance_nonneg"] = finite and bool(np.all(imp >= 0))
+        if case["zero_row"] is not None:
+            flags["zero_row_zero_importance"] = finite and float(imp[case["zero_row"]]) == 0.0
     # affine rescaling of the logits (same object otherwise)
     a, b = case["affine"]
     craft.latent_to_logit_model = Head(a, b)
@@ -314,62 +347,50 @@ def skipped(case, res):
     return (not res["cond"]) or min(res["cond"]) < GUARD
 
 
-def term_list(case, res):
+def checks_term(case, res):
     hh, ww, D = geom(case)
     nq = len(case["xs"] if case["mode"] != "other" else case["xq"])
     R, n, F, bs = case["R"], case["n"], case["F"], case["bs"]
     M = n * (R + 2)
-    Fb = len(res["bank"][0])
-    tab = core.cl([f"({core.cqlist(a)}, {core.cqlist(u)})" for a, u in res["tab"]])
-    lets = [f"let imgs := {core.cqlist2(case['xs'])} in", f"let raws := {core.cqlist2(res['raws'])} in",
-            f"let tab := {tab} in", f"let ks := {fam.coq_fquad(case['head'])} in",
-            f"let Wb := {core.cqlist2(res['bank'])} in", f"let AB := {core.cqlist2(res['AB'])} in",
-            "let G := tabG raws in", "let nmf := map (row_table tab) in", "let Hd := map (fquad_out ks) in",
-            f"let masks := replicated_sampler {core.cnat(R)} AB in", f"let idx := seq 0 {core.cnat(nq)} in"]
     nat = core.cnat
+    tab = core.cl([f"({core.cqlist(a)}, {core.cqlist(u)})" for a, u in res["tab"]])
+    hi = [res["head_inputs"][i * M:(i + 1) * M] for i in range(nq)] if res["head_inputs"] else []
+    cmp_imp = not (res["imp"] is None or res["imp_affine"] is None or skipped(case, res))
+    args = [nat(case["C"]), nat(case["H"]), nat(case["W"]), nat(case["p"]), nat(case["N"]), core.cqlist2(case["xs"]),
+            core.cqlist2(res["crops"]), nat(res["n_u"]), core.cqlist2(res["raws"]), tab, fam.coq_fquad(case["head"]),
+            core.cqlist2(res["bank"]), core.cqlist2(res["AB"]), nat(bs), nat(len(res["bank"][0])), nat(case["cls"]),
+            nat(n), nat(R), nat(nq)]
     if case["kind"] == "4d":
-        lets.append(f"let tu := transform_4d G nmf {nat(bs)} {nat(F)} {nat(hh)} {nat(ww)} idx in")
-        t_transform = f"qlist4_eqb tu {cq4(res['tu'])}"
-        hi = [res["head_inputs"][i * M:(i + 1) * M] for i in range(nq)] if res["head_inputs"] else []
-        t_inputs = (f"close_rows2 {core.cq(TOL_A)} (map (head_inputs_4d Wb {nat(Fb)} masks (length (hd [] tu)) "
-                    f"(length (hd [] (hd [] tu)))) tu) {cq3(hi)}")
-        imp_model = f"(importance_4d Hd {nat(bs)} Wb {nat(Fb)} {nat(case['cls'])} {nat(n)} {nat(R)} masks tu)"
+        args += [nat(F), nat(hh), nat(ww), cq4(res["tu"])]
+        fn = "c20_checks_4d"
     else:
-        lets.append(f"let tu := transform_2d G nmf {nat(bs)} idx in")
-        t_transform = f"qlist2_eqb tu {core.cqlist2(res['tu'])}"
-        hi = [res["head_inputs"][i * M:(i + 1) * M] for i in range(nq)] if res["head_inputs"] else []
-        t_inputs = f"close_rows2 {core.cq(TOL_A)} (map (perturbed_2d Wb {nat(Fb)} masks) tu) {cq3(hi)}"
-        imp_model = f"(importance_2d Hd {nat(bs)} Wb {nat(Fb)} {nat(case['cls'])} {nat(n)} {nat(R)} masks tu)"
-    lets.append(f"let imp := {imp_model} in")
-    checks = [f"qlist2_eqb (extract_patches {nat(case['C'])} {nat(case['H'])} {nat(case['W'])} {nat(case['p'])} imgs) "
-              f"{core.cqlist2(res['crops'])}",
-              f"Nat.eqb (crop_count {nat(case['N'])} {nat(case['H'])} {nat(case['W'])} {nat(case['p'])}) {nat(res['n_u'])}",
-              t_transform, t_inputs]
-    if res["imp"] is None or res["imp_affine"] is None or skipped(case, res):
-        checks += ["true", "true"]
-    else:
-        checks += [f"close_imp {core.cq(TOL_IMP)} imp {core.cqlist(res['imp'])}",
-                   f"close_imp {core.cq(TOL_IMP)} {core.cqlist(res['imp'])} {core.cqlist(res['imp_affine'])}"]
-    return lets, checks
+        args += [core.cqlist2(res["tu"])]
+        fn = "c20_checks_2d"
+    args += [core.cq(TOL_A), cq3(hi), core.cbool(cmp_imp), core.cq(TOL_IMP),
+             core.cqlist(res["imp"] if cmp_imp else []), core.cqlist(res["imp_affine"] if cmp_imp else [])]
+    return "(" + fn + "\n  " + "\n  ".join(args) + ")"
 
 
 def flag_names(res):
     return sorted(res["flags"])
 
 
+EXTRA_COVERAGE = dict(importance_comparisons_skipped_under_variance_guard=0, importance_comparisons=0)
+_counted = set()
+
+
 def coq_term(case, res):
-    lets, checks = term_list(case, res)
-    flags = [core.cbool(res["flags"][k]) for k in flag_names(res)]
-    return "(" + "\n ".join(lets) + "\n forallb (fun b : bool => b) " + core.cl(checks + flags) + ")"
-
-
-def n_skipped(rows):
-    return sum(1 for c, r in rows if r is not None and skipped(c, r))
+    key = (case["seed"], case["n"], case["N"], case["bs"])
+    if key not in _counted:
+        _counted.add(key)
+        k = "importance_comparisons_skipped_under_variance_guard" if skipped(case, res) else "importance_comparisons"
+        EXTRA_COVERAGE[k] += 1
+    flags = core.cl([core.cbool(res["flags"][k]) for k in flag_names(res)])
+    return f"c20_ok {checks_term(case, res)} {flags}"
 
 
 def dump_term(case, res):
-    lets, checks = term_list(case, res)
-    return "(" + "\n ".join(lets) + "\n (" + core.cl(checks) + ", map qdump imp))"
+    return f"c20_dump {checks_term(case, res)}"
 
 
 def explain_failure(case, res, model):
